@@ -37,8 +37,8 @@ import mdtraj as md
 from bcc.api import Check
 from bcc.fixtures import Scratch, make_traj
 
-FORMATS = ["h5", "xtc", "trr", "dcd", "nc", "mdcrd", "xyz", "lammpstrj", "gro", "pdb", "dtr"]
-HAS_TOP = {"h5", "pdb", "gro"}
+FORMATS = ["h5", "xtc", "trr", "dcd", "nc", "mdcrd", "xyz", "lammpstrj", "gro", "pdb", "dtr", "arc"]
+HAS_TOP = {"h5", "pdb", "gro", "arc"}
 N_ATOMS = 5
 ATOM_SUBSETS = [None, [0], [1, 3], [0, 2, 4]]
 STRIDES = [1, 2, 3, 4]
@@ -49,6 +49,18 @@ def write_file(d, fmt, N, seed, tag=""):
     cell = None if fmt == "xyz" else "ortho"
     t = make_traj(n_frames=N, n_atoms=N_ATOMS, cell=cell, seed=seed * 100 + N)
     path = os.path.join(d, f"t{tag}{N}.{fmt}")
+    if fmt == "arc":
+        # mdtraj has no TINKER archive writer: the text is written here (atom count line, box line, one line per atom:
+        # index, name, x y z in angstrom, atom type, bonded partners)
+        with open(path, "w") as fh:
+            for f in range(N):
+                fh.write(f"{N_ATOMS:6d}  frame {f}\n")
+                fh.write(" ".join(f"{10 * v:12.6f}" for v in t.unitcell_lengths[f]) + " " + " ".join(f"{v:12.6f}" for v in t.unitcell_angles[f]) + "\n")
+                for a in range(N_ATOMS):
+                    partners = [b for b in (a, a + 2) if 1 <= b <= N_ATOMS and b != a + 1]
+                    x, y, z = (10 * float(v) for v in t.xyz[f, a])
+                    fh.write(f"{a + 1:6d}  {'CNOHS'[a % 5]:<3s}{x:12.6f}{y:12.6f}{z:12.6f}{1:6d}" + "".join(f"{b:6d}" for b in partners) + "\n")
+        return path, md.load(path).topology
     t.save(path)
     return path, t.topology
 
